@@ -737,9 +737,7 @@ def eq_values(ev, st, a, b):
     if isinstance(a, ArrV) and isinstance(b, ArrV):
         if a.n != b.n:
             return T.FALSE
-        if a.n > 64 and (a.base is not None or b.base is not None or a.w is None):
-            if a.w is None:
-                raise Unsupported("equality of big arrays of aggregates")
+        if a.n > 64 and a.w is not None and (a.base is not None or b.base is not None):
             ta, tb = a.to_term(), b.to_term()
             if ta is tb:
                 return T.TRUE
@@ -748,6 +746,12 @@ def eq_values(ev, st, a, b):
         return T.and1([eq_values(ev, st, a.get(i), b.get(i)) for i in range(a.n)])
     if isinstance(a, Struct) and isinstance(b, Struct):
         return T.and1([eq_values(ev, st, x, y) for x, y in zip(a.fields, b.fields)])
+    if isinstance(a, OpaqueV) and isinstance(b, OpaqueV):
+        x, y = T.sym("opaque:%s" % a.token, 1), T.sym("opaque:%s" % b.token, 1)
+        if x is y:
+            return T.TRUE
+        x, y = (x, y) if x.id < y.id else (y, x)
+        return T.atom("opaque_eq", 1, (x, y))
     raise Unsupported("equality of %r and %r" % (a, b))
 
 
